@@ -155,6 +155,21 @@ def gen_pairs(rng, per_op):
                             lines.append(preq(pair, vi, 0, op, sk, A, sw, sh, 0, 3, t, mk, df, dw, dh,
                                               1, 1, dx, dy, w, h, seed, 0))
                         pair += 1
+    # Projective transforms under which the four corners of the request map to a quadrilateral that two opposite corners
+    # do not bound: the corner (x2, y1) or (x1, y2) - or (x2, y2) - falls outside a non-repeating alpha-less source while
+    # the others stay inside.  Whatever the library concludes from the corners, the samples outside are transparent.
+    # persp codes (driver table): 11 / 12: w = 1 +- y/8; 7 / 8: w = 1 +- x/16; 3 / 4: w = 1 +- y/16; 1 / 2: w = 1 +- x/32
+    for op in (3, 1, 5, 8, 11):              # OVER SRC IN OUT_REVERSE XOR
+        for pc in (11, 12, 7, 8, 3, 4, 1, 2, 9, 10):
+            for dsw, dsh in ((-2, 0), (-1, 1), (0, -1), (1, -1), (-3, -1), (2, 2)):
+                dw, dh = 12, 3
+                sw, sh = max(1, dw + dsw), max(1, dh + dsh)
+                seed = rng.randrange(1, 2 ** 31)
+                sfilt = 3 if (pc + dsw) % 2 else 4
+                for vi, sf in enumerate((X, A)):
+                    lines.append(preq(pair, vi, 0, op, 0, sf, sw, sh, 0, sfilt, [FX1, 0, 0, FX1, 0, 0], 0, A, dw, dh,
+                                      0, 0, 0, 0, dw, dh, seed, pc << 4))
+                pair += 1
     # the same solid colour drawn by pixman_image_fill_boxes and by compositing a solid image: opaque (alpha 0xffff)
     # and almost opaque / translucent 16-bit alphas, every operator family, shallow and deep destinations (the
     # direct-fill shortcut of fill_boxes is an opacity-based simplification too)
